@@ -649,7 +649,12 @@ func (p *parser) parseCallExpression(function ast.Expression) ast.Expression {
 		Function:  function,
 	}
 
-	ss := strings.Split(function.String(), ".")
+	// only a dotted name (a.b.f) carries a receiver path; the text of any
+	// other callee - f("a.b")(2), m["a.b"]("x"), f(1.5)() - is not a path
+	var ss []string
+	if _, ok := function.(*ast.Identifier); ok {
+		ss = strings.Split(function.String(), ".")
+	}
 
 	if len(ss) > 1 {
 		exp.Callee = &ast.Identifier{
